@@ -43,15 +43,16 @@ def ann_effects(m, anns, doc):
         k = ad.atype
         if k == 'Omitted':
             out['omitted'] = ad.args[0]
-            docu = UNSPEC if docu is None or docu is UNSPEC else \
-                'Field is only returned for "%s" callers. %s' % (ad.args[0], docu)
+            note = 'Field is only returned for "%s" callers.' % ad.args[0]
+            docu = UNSPEC if docu is UNSPEC else (note if docu is None else note + ' ' + docu)
         elif k == 'Deprecated':
             out['deprecated'] = True
-            docu = UNSPEC if docu is None or docu is UNSPEC else 'Field is deprecated. %s' % docu
+            docu = UNSPEC if docu is UNSPEC else ('Field is deprecated.' if docu is None
+                                                  else 'Field is deprecated. %s' % docu)
         elif k == 'Preview':
             out['preview'] = True
-            docu = UNSPEC if docu is None or docu is UNSPEC else \
-                'Field is in preview mode - do not rely on in production. %s' % docu
+            note = 'Field is in preview mode - do not rely on in production.'
+            docu = UNSPEC if docu is UNSPEC else (note if docu is None else note + ' ' + docu)
         elif k in ('RedactedBlot', 'RedactedHash'):
             out['redactor'] = (k, ad.args[0] if ad.args else None)
         else:
